@@ -247,3 +247,64 @@ func VH_C17_Bytes() {
 	}
 	vhReach("bytes-done")
 }
+
+// Map copy: offered for single-slab maps of plain values; the copy is valid,
+// equal and independent of the source under mutation of either.
+//
+//vh:prop C17
+//vh:param keys 3 4
+func VH_C17_MapCopy() {
+	vhSetThreshold(256)
+	storage := vhNewBasicStorage()
+	addr := vhAddr(1)
+	b := &vDigesterBuilder{levels: 4}
+	n := 1 + vhChoose("n", vhParam("keys", 3))
+	m, model := vhBuildMap(storage, addr, b, []int{n})
+	vhAssert(m.CanCopyNonRefSimple(), "copy offered for a single-slab map of plain values")
+	b2 := &vDigesterBuilder{levels: 4}
+	cp, err := m.CopyNonRefSimple(vhAddr(2), b2)
+	vhAssert(err == nil, "offered copy succeeds")
+	if err != nil {
+		return
+	}
+	vhAssert(cp.SlabID() != m.SlabID(), "copy has a fresh identifier")
+	cmodel := append([]vhKV{}, model...)
+	vhCheckMap(cp, vhAddr(2), cmodel, "copy")
+	// mutate one of them with a symbolic operation, then both must match their own model
+	target, tmodel, taddr := m, &model, addr
+	if vhChoose("mutate", 2) == 1 {
+		target, tmodel, taddr = cp, &cmodel, vhAddr(2)
+	}
+	_ = taddr
+	switch vhChoose("op", 3) {
+	case 0: // remove any key
+		i := vhChoose("which", len(*tmodel))
+		ks, vs, err := target.Remove(vhCompare, vhHip, (*tmodel)[i].key)
+		vhAssert(err == nil, "remove from one map")
+		if err != nil {
+			return
+		}
+		vhDispose(storage, ks)
+		vhDispose(storage, vs)
+		*tmodel = append(append([]vhKV{}, (*tmodel)[:i]...), (*tmodel)[i+1:]...)
+	case 1: // insert a key with any digest
+		k := vhNewKey(9999)
+		old, err := target.Set(vhCompare, vhHip, k, vElem{tag: 5555, size: vhRange32("newvsz", 1, 50)})
+		vhAssert(err == nil && old == nil, "insert into one map")
+		if err != nil {
+			return
+		}
+		*tmodel = append(*tmodel, vhKV{key: k, val: 5555})
+	case 2: // update
+		i := vhChoose("which", len(*tmodel))
+		old, err := target.Set(vhCompare, vhHip, (*tmodel)[i].key, vElem{tag: 5555, size: vhRange32("newvsz", 1, 50)})
+		vhAssert(err == nil, "update one map")
+		if err == nil && old != nil {
+			vhDispose(storage, old)
+		}
+		(*tmodel)[i].val = 5555
+	}
+	vhCheckMap(m, addr, model, "source after mutation of one map")
+	vhCheckMap(cp, vhAddr(2), cmodel, "copy after mutation of one map")
+	vhReach("mapcopy-done")
+}
